@@ -71,6 +71,7 @@ type State struct {
 	PC        []*sym.Term
 	Model     sym.Model
 	ev        *sym.Evaluator
+	evAt      int
 	panicking *PanicV
 	unwinding bool
 	extra     map[string]Value
